@@ -1,5 +1,5 @@
 """Index over clang's JSON AST of one translation unit (current /repo tree)."""
-import json, re
+import json, re, os
 
 FUNC_KINDS = ('FunctionDecl', 'CXXMethodDecl', 'CXXConstructorDecl', 'CXXDestructorDecl', 'CXXConversionDecl')
 REC_KINDS = ('CXXRecordDecl', 'ClassTemplateSpecializationDecl')
@@ -176,17 +176,51 @@ class TU:
         m = re.match(r'^\(lambda at (.*):(\d+):(\d+)\)$', q.strip())
         if not m:
             return None
+        c = self.lambdas_at((os.path.normpath(m.group(1)), int(m.group(2)), int(m.group(3))))
+        return self.lambda_canon(c[0]) if c else None
+
+    def lambda_key(self, rec):
+        f, l = self.file_of.get(rec['id'], (None, None))
+        return (os.path.normpath(f) if f else None, l, rec.get('loc', {}).get('col'))
+
+    def lambdas_at(self, key):
         if not hasattr(self, '_lambda_index'):
             self._lambda_index = {}
             for nid, n in self.byid.items():
                 if n.get('kind') == 'CXXRecordDecl' and n.get('definitionData', {}).get('isLambda') and nid in self.file_of:
-                    f, l = self.file_of[nid]
-                    self._lambda_index.setdefault((f, l, n.get('loc', {}).get('col')), []).append(n)
-        c = self._lambda_index.get((m.group(1), int(m.group(2)), int(m.group(3))), [])
-        c = [x for x in c if not self.is_template_pattern(x)] or c
-        return c[-1] if c else None
+                    self._lambda_index.setdefault(self.lambda_key(n), []).append(n)
+        c = self._lambda_index.get(key, [])
+        return [x for x in c if not self.is_template_pattern(x)] or c
+
+    @staticmethod
+    def shape(n):
+        parts = [n.get('kind', ''), n.get('opcode', ''), str(n.get('value', '')), n.get('name', ''), n.get('castKind', '')]
+        r = n.get('referencedDecl')
+        if r:
+            parts.append(r.get('name', ''))
+        return '(' + ','.join(parts) + ''.join(TU.shape(c) for c in n.get('inner', ())) + ')'
+
+    def lambda_canon(self, rec):
+        """the same lambda expression instantiated in several template instantiations: one canonical closure
+        record, provided all instantiated bodies have the same shape (else extraction break)"""
+        if not hasattr(self, '_lambda_canon'):
+            self._lambda_canon = {}
+        if rec['id'] in self._lambda_canon:
+            return self._lambda_canon[rec['id']]
+        group = self.lambdas_at(self.lambda_key(rec))
+        if self.is_template_pattern(rec) or len(group) <= 1 or rec['id'] not in [g['id'] for g in group]:
+            self._lambda_canon[rec['id']] = rec
+            return rec
+        shapes = set(self.shape(g) for g in group)
+        if len(shapes) != 1:
+            raise Abort('lambda at %s instantiated with different bodies' % (self.lambda_key(rec),))
+        canon = sorted(group, key=lambda g: int(g['id'], 16))[0]
+        for g in group:
+            self._lambda_canon[g['id']] = canon
+        return canon
 
     def lambda_name(self, rec):
+        rec = self.lambda_canon(rec)
         p = self.parent.get(rec['id'])
         fn = None
         while p is not None:
@@ -218,7 +252,7 @@ class TU:
                     return self.lambda_name(r)
             return sanitize(q)
         if 'value' in c:
-            return str(c['value'])
+            return '1' if c['value'] == -1 else str(c['value'])
         if c.get('isPack') or 'inner' in c:
             return '_'.join(self._targ(x) if x.get('kind') == 'TemplateArgument' else self._const(x)
                             for x in c.get('inner', ()))
